@@ -37,6 +37,7 @@ var addrKinds = []struct {
 	{"B6", func() net.IP { return net.ParseIP("2001:db8::b") }},
 	{"empty", func() net.IP { return nil }},
 	{"C4", func() net.IP { return net.IP{203, 0, 113, 3} }},
+	{"D6-low-bits-of-B6", func() net.IP { return net.ParseIP("2001:db8:ffff::b") }},
 }
 
 var behaviours = []string{"names", "empty", "error", "slow"}
